@@ -23,7 +23,7 @@ RULE = ("case = (model type, start parameters, maturity, target Black-Scholes vo
 ASSUMPTIONS = ["calibration problems are pre-screened by the harness (COS prices at the interval ends bracket the target)",
                "repricing tolerance 1e-6 x spot (brentq xtol 2e-12 on the parameter)"]
 REQUIRED_COUNTERS = ["default_calibrations", "parameter_calibrations", "repricing_checks", "input_untouched_checks", "history_rebuilds", "short_maturity_calibrations",
-                     "constraint_probes", "calibrations_without_solution_refused", "solutions_near_the_lower_end"]
+                     "constraint_probes", "calibrations_without_solution_refused", "solutions_near_the_lower_end", "histories_moving_a_subset_of_the_parameters"]
 MIN_NONTRIVIAL = {"quick": 40, "thorough": 500}
 THOROUGH_ROUNDS = 20      # the thorough tier runs the generators this many times (different seeds)
 REPRICE_TOL = 1e-8        # relative to the spot: the calibrated value reprices the target within the root-finder tolerance (see DESIGN)
@@ -44,6 +44,11 @@ def gen_cases(tier, seed):
     # no solution inside the given interval (the root lies beyond its upper end): the call raises, or returns an admissible value that reprices
     cases += [{"kind": "calib", "seed": int(rng.integers(2**31)), "family": FAMS[i % 4], "mode": "generic", "beyond": True} for i in range(8 if tier == "quick" else 80)]
     cases += [{"kind": "history", "seed": int(rng.integers(2**31)), "family": (FAMS + ["BS"])[i % 5]} for i in range(n)]
+    # one parameter assigned alone (every parameter of every family in turn), then initialisation()
+    for fam, names_ in (("HEM", ["sigma", "p", "eta1", "eta2", "intensity"]), ("MERTON", ["sigma", "mu_j", "sigma_j", "intensity"]), ("VG", ["sigma", "nu", "theta"]),
+                        ("CGMY", ["c", "g", "m", "y"])):
+        for nm in names_:
+            cases.append({"kind": "history", "seed": int(rng.integers(2**31)), "family": fam, "only": nm})
     cases += [{"kind": "constraints", "seed": int(rng.integers(2**31))} for _ in range(4 if tier == "quick" else 40)]
     return cases
 
@@ -284,9 +289,23 @@ def _history(case, R):
     params = (m0.levy_model if exp and fam != "BS" else m0).parameters
     wit = {"case": case, "start": start, "final": final}
     names = list(final["params"])
+    if case.get("only"):
+        for k in names:
+            if k != case["only"]:
+                final["params"][k] = start["params"][k]
+        names = [case["only"]]
+        R.hit("histories_moving_a_subset_of_the_parameters")
+    elif case["seed"] % 5 < 2:
+        # only some of the parameters move (the others keep the value they were constructed with and are never assigned)
+        moved = [str(k) for k in rng.permutation(names)[: int(rng.integers(1, max(2, len(names))))]]
+        for k in names:
+            if k not in moved:
+                final["params"][k] = start["params"][k]
+        names = moved
+        R.hit("histories_moving_a_subset_of_the_parameters")
     seq = []
     # a history of assignments: random intermediate values, re-assignments, then the final values in random order
-    for _ in range(int(rng.integers(0, 6))):
+    for _ in range(int(rng.integers(0, 6)) if not case.get("only") else 0):
         k = str(rng.choice(names))
         seq.append((k, W.gen_model_spec(rng, fam, exp=exp, branch=start.get("branch"))["params"][k]))
     for k in rng.permutation(names):
@@ -323,9 +342,11 @@ def _history(case, R):
     for k, v in dp.__dict__.items():
         if k.startswith("_") or k in ("variance",):
             got = params.__dict__.get(k)
-            if got is None or not np.isclose(float(got), float(v), rtol=1e-13, atol=0, equal_nan=True):
+            if not isinstance(v, (int, float, np.floating, np.integer)):
+                continue          # (only the numeric derived members are compared)
+            if got is None or not isinstance(got, (int, float, np.floating, np.integer)) or not np.isclose(float(got), float(v), rtol=1e-13, atol=0, equal_nan=True):
                 R.violation(f"{fam}-derived-parameter-stale-{k.strip('_')}", f"{fam}: derived member {k} = {got!r} after the history, {v!r} on a fresh object", wit)
-    if len(seq) >= 2:
+    if len(seq) >= 2 or case.get("only"):
         R.nontrivial_case(case["seed"])
 
 
